@@ -333,7 +333,12 @@ def exec_programs(tier, t):
     VERIF_GUARD("@PID@", "final!", body());"""
         progs_.append(harness.Program(pid, g["ui"], g["header"], driver, {"kind": "collision", "name": name, "source": src,
                                                                           "expected": "ok"}))
-    res = harness.run_batch(progs_, tag="c16san", sanitize=True)
+    # the sanitizer builds are slow and independent: four translation units side by side
+    import concurrent.futures
+    res = {}
+    with concurrent.futures.ThreadPoolExecutor(4) as ex:
+        for part in ex.map(lambda ch: harness.run_batch(ch, tag="c16san", sanitize=True), [progs_[i::4] for i in range(4)]):
+            res.update(part)
     for p in progs_:
         r = res[p.pid]
         m = p.meta
